@@ -352,6 +352,8 @@ pub struct SwC {
     pub g_infinity: bool,
     pub r: UInt,
     pub cofactor: Vec<u64>,
+    /// the derived predicate `CurveConfig::cofactor_is_one()` (it switches subgroup checks off)
+    pub cofactor_is_one: bool,
     pub cofactor_inv: UInt,
     /// points of E(F_q) found by solving y^2 = x^3 + a x + b for random x with the library's square root
     /// (membership is re-checked by the oracle, so the library is only a point *finder* here)
@@ -399,6 +401,7 @@ where
         g_infinity: g.infinity,
         r: from_limbs(<C::ScalarField as PrimeField>::MODULUS.as_ref()),
         cofactor: C::COFACTOR.to_vec(),
+        cofactor_is_one: <C as ark_ec::CurveConfig>::cofactor_is_one(),
         cofactor_inv: pf_uint(&C::COFACTOR_INV),
         rand_points: sw_rand_points::<C>,
         helpers: sw_helpers::<C>,
@@ -413,6 +416,8 @@ pub struct TeC {
     pub g: FlatPt,
     pub r: UInt,
     pub cofactor: Vec<u64>,
+    /// the derived predicate `CurveConfig::cofactor_is_one()` (it switches subgroup checks off)
+    pub cofactor_is_one: bool,
     pub cofactor_inv: UInt,
     pub mont_a: Vec<UInt>,
     pub mont_b: Vec<UInt>,
@@ -462,6 +467,7 @@ where
         g: (flat(&g.x), flat(&g.y)),
         r: from_limbs(<C::ScalarField as PrimeField>::MODULUS.as_ref()),
         cofactor: C::COFACTOR.to_vec(),
+        cofactor_is_one: <C as ark_ec::CurveConfig>::cofactor_is_one(),
         cofactor_inv: pf_uint(&C::COFACTOR_INV),
         mont_a: flat(&<C::MontCurveConfig as MontCurveConfig>::COEFF_A),
         mont_b: flat(&<C::MontCurveConfig as MontCurveConfig>::COEFF_B),
